@@ -279,7 +279,10 @@ bool Instance::eval(const size_t argc, char* const* argv) {
         if (!(vlen & 1)) {
             std::vector<unsigned char> pushData;
             if (TryHex(v, pushData)) {
-                script << pushData;
+                // use the minimal push form, or MINIMALDATA rejects the push of e.g. 0x01
+                if (pushData.size() == 1 && pushData[0] >= 1 && pushData[0] <= 16) script << (opcodetype)(OP_1 + pushData[0] - 1);
+                else if (pushData.size() == 1 && pushData[0] == 0x81) script << OP_1NEGATE;
+                else script << pushData;
                 continue;
             }
         }
